@@ -27,7 +27,9 @@ macro_rules! into_kernel {
             if q <= <$ct>::MAX as u128 {
                 match r {
                     Ok((b, y)) => assert!(b as u128 == q && y == rem, "into_block_byte inexact"),
-                    Err(_) => assert!(false, "into_block_byte rejected a representable position"),
+                    // a position inside the keystream (block index < 2^w - 1) must be representable; the
+                    // index 2^w - 1 itself is one past the last block and may be refused
+                    Err(_) => assert!(q == <$ct>::MAX as u128, "into_block_byte rejected a position inside the keystream"),
                 }
             } else {
                 assert!(r.is_err(), "into_block_byte accepted a block index that does not fit the counter");
